@@ -40,7 +40,7 @@ theorem c04_icmp4_dest_iff {s : IcmpSt} {pkt : Bytes} {t : Nat} {a : Bytes} {d :
 theorem c04_icmp6_dest_from_target {s : IcmpSt} {pkt : Bytes} {t : Nat} {a : Bytes} {tm : Nat}
     (hmin : 1 ≤ s.cfg.min) (h : icmpRecv s pkt = .accept t a true tm)
     (hv6 : ∃ b0, u8 (pkt.take bufSize) 0 = some b0 ∧ b0 / 16 = 6) : a = s.cfg.target := by
-  have hg := (icmp6_sound_partial hmin h hv6 (fun _ => Or.inr rfl)).1
+  have hg := (icmp6_sound hmin h hv6).1
   unfold genuineIcmp6 at hg
   split at hg; · simp at hg
   simp only [if_true] at hg
